@@ -34,29 +34,50 @@ structure GCase where
   isCell : Bool := false
   inc : List Nat := []
   out : List Nat := []
+  /-- large graphs (`S` line): labels / paths are observed for these nodes only, no adjacency line -/
+  sample : Option (List Nat) := none
   bad : Option String := none
 deriving Inhabited
 
+/-- the nodes whose label / path is observed after every query -/
+def GCase.watch (c : GCase) : List Nat := match c.sample with | some l => l | none => List.range c.n
+
+def parseTriple (it : String) : Option Edge :=
+  match it.splitOn ":" with
+  | [u, v, w] => match u.toNat?, v.toNat?, w.toNat? with
+    | some u, some v, some w => some (u, v, w)
+    | _, _, _ => none
+  | _ => none
+
 def parseCase (ops : Array String) : GCase := Id.run do
   let mut c : GCase := {}
+  let mut es : Array Edge := #[]
+  let mut qs : Array Query := #[]
   for l in ops do
     match words l with
     | ["G", n, rep] => c := { c with n := parseNat! n, rep := rep }
     | ["CELL"] => c := { c with isCell := true }
     | "IN" :: ids => c := { c with inc := ids.map parseNat! }
     | "OUT" :: ids => c := { c with out := ids.map parseNat! }
-    | ["E", u, v, w] => c := { c with edges := c.edges ++ [(parseNat! u, parseNat! v, parseNat! w)] }
-    | ["Q", "uni", s, t] => c := { c with queries := c.queries ++ [.uni (parseNat! s) (parseNat! t)] }
-    | "Q" :: "o2m" :: s :: ts => c := { c with queries := c.queries ++ [.o2m (parseNat! s) (ts.map parseNat!)] }
+    | "S" :: ids => c := { c with sample := some (ids.map parseNat!) }
+    | ["E", u, v, w] => es := es.push (parseNat! u, parseNat! v, parseNat! w)
+    | "EE" :: items =>
+      for it in items do
+        match parseTriple it with
+        | some e => es := es.push e
+        | none => c := { c with bad := some s!"unparsable edge '{it}'" }
+    | ["Q", "uni", s, t] => qs := qs.push (.uni (parseNat! s) (parseNat! t))
+    | "Q" :: "o2m" :: s :: ts => qs := qs.push (.o2m (parseNat! s) (ts.map parseNat!))
     | _ => c := { c with bad := some s!"unparsable op '{l}'" }
-  return c
+  return { c with edges := es.toList, queries := qs.toList }
 
 def joinWith (sep : String) (xs : List String) : String := sep.intercalate xs
 def bit (b : Bool) : String := if b then "1" else "0"
 
 /-- adjacency lists from an edge list in the given order -/
 def adjArrOf (n : Nat) (ordered : List Edge) : Array (List (Nat × Nat)) :=
-  ordered.foldl (fun a e => if e.1 < a.size then a.modify e.1 (· ++ [(e.2.1, e.2.2)]) else a) (Array.replicate n [])
+  -- consing the reversed list keeps the given order inside every node and is linear
+  ordered.reverse.foldl (fun a e => if e.1 < a.size then a.modify e.1 ((e.2.1, e.2.2) :: ·) else a) (Array.replicate n [])
 
 def adjFn (a : Array (List (Nat × Nat))) : Adj := fun u => a.getD u []
 
@@ -70,14 +91,15 @@ def parseAdjLine (impl : Array String) : Option (List Edge) :=
   | none => none
   | some l =>
     let items := (words l).drop 2
-    items.mapM fun it =>
-      match it.splitOn ":" with
-      | [u, v, w] => match u.toNat?, v.toNat?, w.toNat? with
-        | some u, some v, some w => some (u, v, w)
-        | _, _, _ => none
-      | _ => none
+    items.mapM parseTriple
 
-def sameMultiset (a b : List Edge) : Bool := sortEdges a == sortEdges b
+def edgeLt (a b : Edge) : Bool := edgeLe a b && !(edgeLe b a)
+
+/-- the order `input.sort()` produces (same as `Dijkstra.sortEdges`: the order on full triples is
+total, so the sorted list is unique), computed in n log n for the driver -/
+def fastSort (es : List Edge) : List Edge := (es.toArray.qsort edgeLt).toList
+
+def sameMultiset (a b : List Edge) : Bool := fastSort a == fastSort b
 
 /-- `number_of_nodes()` the representation will report -/
 def repNodes (c : GCase) : Nat := if c.rep == "static" then staticNodes c.edges else c.n
@@ -90,7 +112,7 @@ def modelOrder (c : GCase) (impl : Array String) : List Edge :=
     match parseAdjLine impl with
     | some es => if sameMultiset es c.edges then es else c.edges
     | none => c.edges
-  else sortEdges c.edges
+  else fastSort c.edges
 
 /-! ### traced run (statistics only; compared with the model's final labels) -/
 
@@ -203,7 +225,9 @@ structure GraphOut where
 
 def runModelGraph (c : GCase) (adj : Adj) : GraphOut := Id.run do
   let n := c.n
-  let mut out : Array String := #[renderAdj n adj]
+  let large := c.sample.isSome
+  let watch := c.watch
+  let mut out : Array String := if large then #[] else #[renderAdj n adj]
   let mut uni := Uni.new
   let mut o2m := O2M.new
   let mut bad : Option String := none
@@ -212,6 +236,14 @@ def runModelGraph (c : GCase) (adj : Adj) : GraphOut := Id.run do
   for q in c.queries do
     match q with
     | .uni s t =>
+      if large then
+        -- large graphs: ONE model run per query, on a fresh object; the reused object yields the
+        -- same result and state (theorem Props.C08.reuse_eq_fresh), no statistics trace
+        match uniRun adj n Uni.new s t with
+        | .ok (_, d) => out := out.push s!"D {k} uni reuse={d} fresh={d}"
+        | .fuel => bad := some s!"model-out-of-fuel (query {k})"; out := out.push s!"D {k} MODEL-FUEL"
+        | .panic => bad := some s!"model reached a panic branch (query {k})"; out := out.push s!"D {k} MODEL-PANIC"
+      else
       let t1 := traceRun adj n s (some t) []
       tr := tr.add t1
       match uniRun adj n uni s t, uniRun adj n Uni.new s t with
@@ -224,13 +256,21 @@ def runModelGraph (c : GCase) (adj : Adj) : GraphOut := Id.run do
       | .fuel, _ | _, .fuel => bad := some s!"model-out-of-fuel (query {k})"; out := out.push s!"D {k} MODEL-FUEL"
       | _, _ => bad := some s!"model reached a panic branch (query {k})"; out := out.push s!"D {k} MODEL-PANIC"
     | .o2m s ts =>
+      if large then
+        match o2mRun adj n O2M.new s ts with
+        | .ok (st, ok) =>
+          out := out.push s!"D {k} o2m reuse={bit ok}:{o2mDistStr st ts} fresh={bit ok}:{o2mDistStr st ts}"
+          out := out.push s!"F {k} labels {joinWith "," (watch.map fun v => toString (st.distance v))}"
+        | .fuel => bad := some s!"model-out-of-fuel (query {k})"; out := out.push s!"D {k} MODEL-FUEL"
+        | .panic => bad := some s!"model reached a panic branch (query {k})"; out := out.push s!"D {k} MODEL-PANIC"
+      else
       let t1 := traceRun adj n s none ts
       tr := tr.add t1
       match o2mRun adj n o2m s ts, o2mRun adj n O2M.new s ts with
       | .ok (st, ok), .ok (st2, ok2) =>
         o2m := st
         out := out.push s!"D {k} o2m reuse={bit ok}:{o2mDistStr st ts} fresh={bit ok2}:{o2mDistStr st2 ts}"
-        out := out.push s!"F {k} labels {joinWith "," ((List.range n).map fun v => toString (st.distance v))}"
+        out := out.push s!"F {k} labels {joinWith "," (watch.map fun v => toString (st.distance v))}"
         if (List.range n).any (fun v => st.distance v != AHeap.weight t1.q (v : Int)) then
           bad := some s!"query {k}: statistics trace diverged from the model"
       | .fuel, _ | _, .fuel => bad := some s!"model-out-of-fuel (query {k})"; out := out.push s!"D {k} MODEL-FUEL"
@@ -259,9 +299,12 @@ def judgeGraph (c : GCase) (impl : Array String) : Verdict := Id.run do
   if impl.contains "PANIC" then return .fail "implementation panicked on an in-domain case"
   if impl.contains "HANG" || impl.contains "ABORT" then return .fail "implementation hung or aborted"
   -- the representation must hold exactly the given edges
-  match parseAdjLine impl with
-  | none => return .fail "no adjacency observation"
-  | some es => if !(sameMultiset es c.edges) then return .fail "graph representation does not hold exactly the given edges"
+  if c.sample.isNone then
+    match parseAdjLine impl with
+    | none => return .fail "no adjacency observation"
+    | some es => if !(sameMultiset es c.edges) then return .fail "graph representation does not hold exactly the given edges"
+  if c.watch.any (· ≥ n) then return .skip "sampled node outside the graph"
+  let watch := c.watch
   let umax := UMAX.toNat
   let mut k := 0
   for q in c.queries do
@@ -287,9 +330,8 @@ def judgeGraph (c : GCase) (impl : Array String) : Verdict := Id.run do
       -- labels of all nodes: never below the truth, finite only for reachable nodes, exact once the queue was drained
       let some ll := implLine impl s!"F {k} labels" | return .fail s!"query {k}: no labels observation"
       let labels := parseNatList (((words ll).drop 3).headD "")
-      if labels.length != n then return .fail s!"query {k}: labels line has {labels.length} entries"
-      let mut v := 0
-      for lab in labels do
+      if labels.length != watch.length then return .fail s!"query {k}: labels line has {labels.length} entries"
+      for (v, lab) in List.zip watch labels do
         let tru := gt D v
         if lab != umax then
           match tru with
@@ -297,7 +339,6 @@ def judgeGraph (c : GCase) (impl : Array String) : Verdict := Id.run do
           | some d => if lab < d then return .fail s!"query {k}: label {lab} of node {v} is below its distance {d}"
                       else if !expOk && lab != d then return .fail s!"query {k}: queue drained but label {lab} of node {v} is not its distance {d}"
         else if !expOk && tru.isSome then return .fail s!"query {k}: queue drained but reachable node {v} has no label"
-        v := v + 1
     k := k + 1
   return .ok
 
@@ -416,6 +457,6 @@ def handle (cs : Case) : CaseOut :=
         | v, _ => v
       { model := r.model, verdict := v,
         stats := statsOf r.tr [("queries", toString c.queries.length), ("nodes", toString c.n),
-                               ("edges", toString c.edges.length)] }
+                               ("edges", toString c.edges.length), ("large", bit c.sample.isSome)] }
 
 end Tbx.Drv.C08
